@@ -389,8 +389,18 @@ class Folder:
         # a union view (the packed word) or a member that was never written: assemble it from the leaves stored so far
         lay = self.layout(t)
         if lay is not None and path not in lay and any(k2.startswith(path + ".") for k2 in lay):
-            # a whole sub-record (handed on to a helper): its leaves
-            return {k2[len(path) + 1:]: v2 for k2, v2 in rec.items() if k2.startswith(path + ".")}
+            # a whole sub-record (handed on to a helper): its leaves; a leaf that was stored through the enclosing record's own
+            # member of exactly the same bits (the flags an embedded type shares with its container) comes along under its name
+            sub = {k2[len(path) + 1:]: v2 for k2, v2 in rec.items() if k2.startswith(path + ".")}
+            ext = {}
+            for k2, v2 in rec.items():
+                if not k2.startswith(path + ".") and k2 in lay and v2 != 0:
+                    ext.setdefault(lay[k2], v2)
+            if ext:
+                for k3, e3 in lay.items():
+                    if k3.startswith(path + ".") and k3[len(path) + 1:] not in sub and e3 in ext:
+                        sub[k3[len(path) + 1:]] = ext[e3]
+            return sub
         if lay is None or path not in lay:
             raise NotConst("member %s" % path)
         off, w = lay[path]
